@@ -15,6 +15,7 @@ package main
 
 import (
 	"fmt"
+	"go/constant"
 	"go/token"
 	"go/types"
 	"sort"
@@ -160,7 +161,7 @@ func (st *c07State) classifyStep(c *ssa.Call, depth int) (c07Step, bool) {
 				switch s.kind {
 				case "calendar-day":
 					// guarded inside the helper?
-					if v, _ := st.guardVerdict(g, s, nil); v != "ok" {
+					if v, _ := st.guardVerdict(g, s, nil, nil); v != "ok" {
 						worst = "calendar-day"
 					}
 				case "unknown":
@@ -257,7 +258,7 @@ func c07Reaches(v ssa.Value, targets, leaves map[ssa.Value]bool, depth int, seen
 // guard of step s: "ok" (guard with an understood effect), "present" (a
 // comparison of pre- and post-step values exists but its effect is not
 // understood), "absent".
-func (st *c07State) guardVerdict(fn *ssa.Function, s c07Step, region map[*ssa.BasicBlock]bool) (string, string) {
+func (st *c07State) guardVerdict(fn *ssa.Function, s c07Step, region map[*ssa.BasicBlock]bool, header *ssa.BasicBlock) (string, string) {
 	inRegion := func(b *ssa.BasicBlock) bool { return region == nil || region[b] }
 	pre := c07PreSet(s.pre, region)
 	post := map[ssa.Value]bool{s.call: true}
@@ -315,6 +316,7 @@ func (st *c07State) guardVerdict(fn *ssa.Function, s c07Step, region map[*ssa.Ba
 	if len(cmps) == 0 {
 		return "absent", ""
 	}
+	var stalled []string
 	cmpSet := map[ssa.Value]bool{}
 	for _, c := range cmps {
 		cmpSet[c] = true
@@ -330,26 +332,182 @@ func (st *c07State) guardVerdict(fn *ssa.Function, s c07Step, region map[*ssa.Ba
 			continue
 		}
 		stop := map[*ssa.BasicBlock]bool{b: true, s.call.Block(): true}
+		if header != nil {
+			stop[header] = true // what happens in the next iteration or after the loop is not the guard's effect
+		}
 		r0, r1 := reachableFrom(b.Succs[0], stop), reachableFrom(b.Succs[1], stop)
-		for _, pair := range [][2]map[*ssa.BasicBlock]bool{{r0, r1}, {r1, r0}} {
+		for pi, pair := range [][2]map[*ssa.BasicBlock]bool{{r0, r1}, {r1, r0}} {
+			effect := false
 			for blk := range pair[0] {
 				if pair[1][blk] {
 					continue
 				}
 				if c07EndsInReturn(blk) {
-					return "ok", st.p.Pos(c04IfPos(ifi))
+					effect = true
 				}
 				for _, in := range blk.Instrs {
 					if c, ok := in.(*ssa.Call); ok {
 						if as, ok := st.classifyStep(c, 1); ok && as.kind == "absolute" {
-							return "ok", st.p.Pos(c04IfPos(ifi))
+							effect = true
 						}
 					}
 				}
 			}
+			if !effect {
+				continue
+			}
+			// the stall is "post-step time == pre-step time": does the guard take
+			// the branch with the effect then?
+			isTime := func(v ssa.Value) bool {
+				return c07IsTime(v.Type()) && (isPost(v) || c07Reaches(v, pre, map[ssa.Value]bool{}, 0, map[ssa.Value]bool{}))
+			}
+			val, known := st.stallEval(ifi.Cond, isTime, 0)
+			wantTrue := pi == 0 // the effect is on the true successor
+			if known && val != wantTrue {
+				stalled = append(stalled, st.p.Pos(c04IfPos(ifi)))
+				continue
+			}
+			return "ok", st.p.Pos(c04IfPos(ifi))
 		}
 	}
+	if len(stalled) > 0 {
+		return "stalled", strings.Join(stalled, ", ")
+	}
 	return "present", ""
+}
+
+// stallTerm: a canonical term for an int/duration/time value under the
+// assumption that every time value of the iteration denotes the same instant T.
+func (st *c07State) stallTerm(v ssa.Value, isTime func(ssa.Value) bool, depth int) (string, bool) {
+	if depth > 5 || v == nil {
+		return "", false
+	}
+	v = c07Settle(v)
+	if c, ok := v.(*ssa.Const); ok && c.Value != nil {
+		return "#" + c.Value.ExactString(), true
+	}
+	if c07IsTime(v.Type()) {
+		if isTime(v) {
+			return "T", true
+		}
+		return "", false
+	}
+	switch x := v.(type) {
+	case *ssa.Call:
+		obj := calleeObj(x)
+		if obj == nil || obj.Pkg() == nil || obj.Pkg().Path() != "time" || x.Call.IsInvoke() {
+			return "", false
+		}
+		sig := obj.Type().(*types.Signature)
+		if sig.Recv() == nil || typeBaseName(sig.Recv().Type()) != "Time" {
+			return "", false
+		}
+		var parts []string
+		for _, a := range x.Call.Args {
+			t, ok := st.stallTerm(a, isTime, depth+1)
+			if !ok {
+				return "", false
+			}
+			parts = append(parts, t)
+		}
+		switch obj.Name() {
+		case "Sub":
+			if len(parts) == 2 && parts[0] == parts[1] {
+				return "#0", true
+			}
+		case "Compare":
+			if len(parts) == 2 && parts[0] == parts[1] {
+				return "#0", true
+			}
+		}
+		return obj.Name() + "(" + strings.Join(parts, ",") + ")", true
+	case *ssa.Convert:
+		return st.stallTerm(x.X, isTime, depth+1)
+	}
+	return "", false
+}
+
+// stallEval evaluates a boolean under post-step time == pre-step time.
+func (st *c07State) stallEval(v ssa.Value, isTime func(ssa.Value) bool, depth int) (bool, bool) {
+	if depth > 5 || v == nil {
+		return false, false
+	}
+	v = c07Settle(v)
+	switch x := v.(type) {
+	case *ssa.Const:
+		if x.Value != nil && x.Value.Kind() == constant.Bool {
+			return constant.BoolVal(x.Value), true
+		}
+	case *ssa.UnOp:
+		if x.Op == token.NOT {
+			b, ok := st.stallEval(x.X, isTime, depth+1)
+			return !b, ok
+		}
+	case *ssa.BinOp:
+		a, ok1 := st.stallTerm(x.X, isTime, depth+1)
+		b, ok2 := st.stallTerm(x.Y, isTime, depth+1)
+		if !ok1 || !ok2 {
+			return false, false
+		}
+		if a == b {
+			switch x.Op {
+			case token.EQL, token.LEQ, token.GEQ:
+				return true, true
+			case token.NEQ, token.LSS, token.GTR:
+				return false, true
+			}
+			return false, false
+		}
+		if strings.HasPrefix(a, "#") && strings.HasPrefix(b, "#") {
+			ca, cb := constant.MakeFromLiteral(a[1:], token.INT, 0), constant.MakeFromLiteral(b[1:], token.INT, 0)
+			if ca.Kind() == constant.Unknown || cb.Kind() == constant.Unknown {
+				return false, false
+			}
+			return constant.Compare(ca, x.Op, cb), true
+		}
+		return false, false
+	case *ssa.Call:
+		obj := calleeObj(x)
+		if obj != nil && obj.Pkg() != nil && obj.Pkg().Path() == "time" && !x.Call.IsInvoke() && len(x.Call.Args) == 2 {
+			a, ok1 := st.stallTerm(x.Call.Args[0], isTime, depth+1)
+			b, ok2 := st.stallTerm(x.Call.Args[1], isTime, depth+1)
+			if ok1 && ok2 && a == b {
+				switch obj.Name() {
+				case "Equal":
+					return true, true
+				case "Before", "After":
+					return false, true
+				}
+			}
+			return false, false
+		}
+		// a boolean module helper on the two times (sameDay(prev, t)): evaluate its
+		// single returned expression with the parameters standing for T
+		if fn := st.eng.calleeOf(x); fn != nil && st.p.InModule(fn) && fn.Blocks != nil && depth < 3 {
+			var ret *ssa.Return
+			n := 0
+			for _, b := range fn.Blocks {
+				if r, ok := b.Instrs[len(b.Instrs)-1].(*ssa.Return); ok {
+					ret = r
+					n++
+				}
+			}
+			if n != 1 || len(ret.Results) != 1 {
+				return false, false
+			}
+			for _, a := range x.Call.Args {
+				if c07IsTime(a.Type()) && !isTime(a) {
+					return false, false
+				}
+			}
+			inner := func(v ssa.Value) bool {
+				_, isPar := c07Settle(v).(*ssa.Parameter)
+				return isPar
+			}
+			return st.stallEval(ret.Results[0], inner, depth+1)
+		}
+	}
+	return false, false
 }
 
 // c07LoopRegion: the blocks on cycles through header h that avoid the blocks
@@ -375,8 +533,8 @@ func c07LoopRegion(h *ssa.BasicBlock, stop map[*ssa.BasicBlock]bool) map[*ssa.Ba
 		for x := range stop {
 			st2[x] = true
 		}
-		if b == h || reachableFrom(b, st2)[h] {
-			region[b] = true
+		if b == h || (h.Dominates(b) && reachableFrom(b, st2)[h]) {
+			region[b] = true // the natural loop of h: an enclosing loop is not part of it
 		}
 	}
 	if len(region) > 0 {
@@ -432,7 +590,7 @@ func (st *c07State) checkStepLoop(fn *ssa.Function, h *ssa.BasicBlock, stop map[
 		return
 	}
 	for _, s := range day {
-		v, where := st.guardVerdict(fn, s, region)
+		v, where := st.guardVerdict(fn, s, region, h)
 		spos := st.p.Pos(instrPos(s.call))
 		desc := "t.AddDate / time.Date day step"
 		if s.via != nil {
@@ -441,6 +599,10 @@ func (st *c07State) checkStepLoop(fn *ssa.Function, h *ssa.BasicBlock, stop map[
 		switch v {
 		case "ok":
 			r.OK(c07N6s, construct, spos, "the calendar day step is followed by a test relating the pre- and post-step time ("+where+") under which the time is re-assigned from an absolute step or the function returns")
+		case "stalled":
+			r.Violation(c07N6s, construct, spos,
+				fmt.Sprintf("%s steps its loop-carried time by a CALENDAR day (%s); the only test(s) relating the time before and after the step (%s) are FALSE exactly in the case they exist for: where the zone skips a whole calendar day the step lands ON the instant it started from (post-step time == pre-step time; Before/After are false, Equal and Day()==Day() are true), so the guarded absolute step / return is not taken, the loop never advances and Next runs forever", what, desc, where),
+				"input: TZ=Pacific/Apia 0 0 31 12 *  asked on 2011-12-25")
 		case "present":
 			r.Undecide("%s: %s — a comparison of the pre- and post-step time exists after the calendar day step at %s, but the engine cannot see that it leads to an absolute step or a return", c07N6s, what, spos)
 		default:
